@@ -128,7 +128,7 @@ class C05Oracle(BaseOracle):
         N = len(xs)
         if N == 0:
             return None
-        if ys_expected is None and w.values != "unique":
+        if ys_expected is None and w.values not in ("unique", "unique0"):
             return None     # targets of the explained rows are recovered from unique row values only
         if ys_expected is not None:
             ys = ys_expected
